@@ -74,6 +74,7 @@ class Strat(BaseStrategy):
 
     def process_market_book(self, market, market_book):
         self.log.append(["book", self.idx, market.market_id])
+        self.last_market = market
         for runner in market_book.runners:
             self.get_runner_context(market.market_id, runner.selection_id, runner.handicap)
 
@@ -328,7 +329,7 @@ def run_live_exec(case):
            ["respond", call_pick]            ["deliver", pkg_pick, outcome] = call + respond
            ["xfill", bet_pick, frac 1|2] ["xlapse", bet_pick] ["xforeign", strategy idx|"name", id, sel]
            ["stream", "full"|"changed"|"stale"|[bet picks]]
-           ["restart"]"""
+           ["restart"]   ["quiet", seconds] (the session pool sees that much time pass)"""
     import types, threading
     from betfairlightweight import BetfairError, resources
     from flumine.order.trade import Trade
@@ -699,9 +700,19 @@ def run_live_exec(case):
                 if step[1] != "CLOSED":
                     mc["rc"] = [{"id": 101, "atb": [[2.0, 50]], "atl": [[2.1, 50]]}, {"id": 202, "atb": [[2.0, 50]], "atl": [[2.1, 50]]}]
                 W["ls"].on_data(json.dumps({"op": "mcm", "id": W["stream"].stream_id, "clk": str(counters["clk"]), "pt": Clock.epoch_ms(), "mc": [mc]}))
+                pt_ = Clock.epoch_ms()
+                for st_ in W["strategies"]:
+                    st_.last_market = None
                 while not W["q"].empty():
                     fw.handler_queue.put(events.MarketBookEvent(W["q"].get()))
                 pump(fw)
+                reg_ = fw.markets.markets.get(MID)
+                handed_ = [st_.last_market for st_ in W["strategies"] if getattr(st_, "last_market", None) is not None]
+                # the market registered with the framework (the one that holds the orders, incl. those adopted from the order stream before any
+                # book arrived) is the one that receives the book and is handed to the strategies
+                res = {"book": step[1], "registered": reg_ is not None,
+                       "registered_has_this_book": bool(reg_ is not None and reg_.market_book is not None and reg_.market_book.publish_time_epoch == pt_),
+                       "handed_is_registered": all(x is reg_ for x in handed_), "markets_registered": len(fw.markets.markets)}
             elif step[0] in ("place", "req", "txn"):
                 market = fw.markets.markets.get(MID)
                 if market is not None:
@@ -806,6 +817,13 @@ def run_live_exec(case):
                     fw._process_current_orders(events.CurrentOrdersEvent([co], exchange=ExchangeType.BETFAIR))
                 except Exception as e:
                     res["exc"] = type(e).__name__ + ":" + str(e)[:100]
+            elif step[0] == "quiet":
+                # a quiet spell of step[1] seconds as the execution's session pool sees it: every pooled http session was returned that much earlier
+                # (the pool ages sessions with time.time(), which the fake clock of this driver does not move)
+                ex_ = fw.betfair_execution
+                for s_ in list(getattr(ex_, "_sessions", [])):
+                    s_.time_returned -= step[1]
+                res = {"quiet": step[1], "pooled_sessions": len(getattr(ex_, "_sessions", []))}
             elif step[0] == "register":
                 st_ = W["strategies"][step[1]]
                 if st_ not in list(W["fw"].strategies):
